@@ -46,6 +46,11 @@ def shapes():
         # chk is no longer built but still named as a validation
         Variant("v1", [Stmt("out", ex=["src"], val=["chk"]), Stmt("top", ex=["out"])], defaults=["top"]),
     ]))
+    # a validation that consumes something built *from* the statement it validates (what validations are for: no cycle)
+    S.append(("validation_of_a_downstream", [
+        Variant("v0", [Stmt("a", ex=["src"], val=["v"]), Stmt("t", ex=["a"]), Stmt("v", ex=["t", "rules"]), Stmt("u", ex=["t"], val=["v"])],
+                defaults=["u"]),
+    ]))
     # two dyndep-bound statements; building only the second leaves the first one's dyndep file missing
     dd1 = "ninja_dyndep_version = 1\nbuild out1 | out1.imp: dyndep\n"
     dd2 = "ninja_dyndep_version = 1\nbuild out2 | out2.imp: dyndep\n"
